@@ -113,6 +113,19 @@ def extract(relpath, qualpath):
                 if hops > 5:
                     raise NotFound(f'{relpath}:{qualpath}: alias cycle')
                 continue
+            if f[0] == 'other' and i == 0:
+                # module-level alias of a static method: `name = Class.method` with `@staticmethod def method(...)` (a plain
+                # function as far as its body is concerned)
+                v = f[1].value
+                if isinstance(v, ast.Attribute) and isinstance(v.value, ast.Name):
+                    c = _find_in_body(tree.body, v.value.id)
+                    if c and c[0] == 'def' and isinstance(c[1], ast.ClassDef):
+                        m = _find_in_body(c[1].body, v.attr)
+                        if (m and m[0] == 'def' and isinstance(m[1], ast.FunctionDef)
+                                and [ast.unparse(d) for d in m[1].decorator_list] == ['staticmethod']):
+                            alias_of = f'{v.value.id}.{v.attr}'
+                            node = m[1]
+                            break
             if f[0] == 'other':
                 raise NotFound(f'{relpath}: {qualpath}: `{name}` is bound to an unsupported expression: '
                                f'{ast.unparse(f[1])[:80]}')
@@ -185,3 +198,39 @@ def module_constant(relpath, name):
             except Exception:
                 found = NotImplemented
     return found
+
+
+_nt_cache = {}
+
+
+def module_namedtuple(relpath, name):
+    """A module-level `class name(NamedTuple):` whose body is field annotations (optionally with literal defaults) and a
+    docstring: returned as the equivalent collections.namedtuple; anything else -> None."""
+    src, tree = module_ast(relpath)
+    key = (relpath, name, hash(src))
+    if key in _nt_cache:
+        return _nt_cache[key]
+    res = None
+    for st in tree.body:
+        if isinstance(st, ast.ClassDef) and st.name == name and [ast.unparse(b) for b in st.bases] in (['NamedTuple'], ['typing.NamedTuple']) \
+                and not st.decorator_list:
+            fields, defaults, ok = [], [], True
+            for b in st.body:
+                if isinstance(b, ast.Expr) and isinstance(b.value, ast.Constant) and isinstance(b.value.value, str):
+                    continue
+                if isinstance(b, ast.AnnAssign) and isinstance(b.target, ast.Name):
+                    fields.append(b.target.id)
+                    if b.value is not None:
+                        try:
+                            defaults.append(ast.literal_eval(b.value))
+                        except Exception:
+                            ok = False
+                    elif defaults:
+                        ok = False
+                else:
+                    ok = False
+            if ok and fields:
+                import collections
+                res = collections.namedtuple(name, fields, defaults=defaults or None)
+    _nt_cache[key] = res
+    return res
